@@ -72,15 +72,17 @@ def _kappas(fo, X, i, special_row=False):
     return kJ, kJi
 
 
-def _ld_sensitivity(m, ctx, X, i):
+def _ld_sensitivity(m, ctx, X, i, extra=0.0):
     """How much forward's log-abs-det moves when row i of X moves by a few ulps: the inverse evaluates its log-det at its
-    internal (normalised) root, the returned point is that root rounded to the caller's scale."""
+    internal (normalised) root, the returned point is that root rounded to the caller's scale.  `extra`: declared resolution of
+    an approximate inverse inside the chain (UMNN's bisection) - the point handed on to the exact parts is only known that well,
+    and a kink of a C0 part within that distance puts the two log-dets on different sides of it."""
     worst = 0.0
     with torch.no_grad():
         base = m(X, ctx)[1][i]
         for sgn in (-1.0, 1.0):
             Xp = X.clone()
-            Xp[i] = X[i] + sgn * 16 * 2.2e-16 * (1.0 + X[i].abs().max())
+            Xp[i] = X[i] + sgn * (16 * 2.2e-16 * (1.0 + X[i].abs().max()) + extra)
             try:
                 worst = max(worst, abs(float(m(Xp, ctx)[1][i] - base)))
             except Exception:
@@ -95,7 +97,7 @@ def _ld_sensitivity(m, ctx, X, i):
                 wj = 0.0
                 for sgn in (-1.0, 1.0):
                     Xp = X.clone()
-                    Xp[i].reshape(-1)[j] = flat[j] + sgn * 16 * 2.2e-16 * (1.0 + float(flat[j].abs()))
+                    Xp[i].reshape(-1)[j] = flat[j] + sgn * (16 * 2.2e-16 * (1.0 + float(flat[j].abs())) + extra)
                     try:
                         wj = max(wj, abs(float(m(Xp, ctx)[1][i] - base)))
                     except Exception:
@@ -211,7 +213,7 @@ def _run_case(case):
                         res.labels.append("kink_negation_skipped")  # C0-only maps: the two calls may sit on either side of a kink
                         continue
                     if e2 > t2:
-                        t2 += _ld_sensitivity(m, ctx, xh, i) + _ld_sensitivity(m.inverse, ctx, y, i)
+                        t2 += _ld_sensitivity(m, ctx, xh, i, A * max(1.0, kJi)) + _ld_sensitivity(m.inverse, ctx, y, i, A * max(1.0, kJ))
                     res.see_ratio(e2, t2)
                     if e2 > t2:
                         res.fail("logdet_not_negated", site, "row %d: inverse(y).logabsdet=%.12g but forward(inverse(y)).logabsdet=%.12g" % (
@@ -289,7 +291,7 @@ def _run_case(case):
                         res.labels.append("kink_negation_skipped")
                         continue
                     if e2 > t2:
-                        t2 += _ld_sensitivity(m, ctx, x0, i) + _ld_sensitivity(m.inverse, ctx, Y, i)
+                        t2 += _ld_sensitivity(m, ctx, x0, i, A * max(1.0, kJi)) + _ld_sensitivity(m.inverse, ctx, Y, i, A * max(1.0, kJ))
                     if e2 > t2:
                         res.fail("logdet_not_negated", site, "row %d: inverse(y).logabsdet=%.12g but forward(inverse(y)).logabsdet=%.12g" % (
                             i, float(ldi0[i]), float(ldf1[i])), measured=e2, tol=t2)
